@@ -74,6 +74,11 @@ def gen_cases(tier, seed):
         i += 1
         yield {'family': fmt, 'sizes': [4, 2], 'format': fmt, 'pretty': True, 'idx': i, 'seed': seed, 'tier': tier,
                'redump': True}
+    # ONE Flow object with add_filehash_to_path run twice, its output directory removed in between
+    for fmt in ('csv', 'json'):
+        i += 1
+        yield {'family': fmt, 'sizes': [4, 2], 'format': fmt, 'pretty': True, 'idx': i, 'seed': seed, 'tier': tier,
+               'filehash': True, 'second_run_after_output_removed': True}
     # add_filehash_to_path (with and without the resource-hash counter): the listed path must be the written one
     for fmt in ('csv', 'json'):
         for nohash in (False, True):
@@ -110,9 +115,13 @@ def run_case(case):
             d.Flow(*[lab.source('res%d' % i, F, t) for i, t in enumerate(tables)],
                    d.dump_to_path('prev', format='json' if case['format'] == 'csv' else 'csv')).process()
     cfg['source_is_a_loaded_dump'] = bool(case.get('redump'))
+    cfg['same_flow_run_again_after_output_removed'] = bool(case.get('second_run_after_output_removed'))
 
     def run_dump(out):
         steps = [lab.source('res%d' % i, F, t) for i, t in enumerate(tables)]
+        if case.get('second_run_after_output_removed'):
+            # (re-runnable sources: plain row lists)
+            steps = [[dict(r) for r in t] for t in tables]
         if case.get('redump'):
             steps = [d.load('prev/datapackage.json')]
         if case.get('paths'):
@@ -147,6 +156,21 @@ def run_case(case):
             def first_two(rows):
                 return itertools.islice(rows, 2)
             steps.append(first_two)
+        if case.get('second_run_after_output_removed'):
+            # the same Flow object has run before, into a directory that is gone by now (moved away by a deploy step)
+            import shutil as sh_
+            flow_ = d.Flow(*steps)
+            try:
+                with boot.quiet():
+                    flow_.process()
+                # (moved away in ONE step: a half-removed directory would be the harness' own doing)
+                sh_.rmtree(out + '.moved', ignore_errors=True)
+                os.rename(out, out + '.moved')
+                with boot.quiet():
+                    flow_.process()
+                return {'ok': True, 'error': None}
+            except Exception as e:
+                return {'ok': False, 'error': str(getattr(e, 'cause', e))[:300]}
         o = lab.run(steps, validate=True)
         return {'ok': o.ok, 'error': None if o.ok else o.errstr()}
 
